@@ -163,6 +163,23 @@ Theorem c19_code_spawn_path_as_modelled :
 Proof. exact gen_spawn_path_as_modelled. Qed.
 Print Assumptions c19_code_spawn_path_as_modelled.
 
+(* T1, the STEP ORDER of the spawn sites: tools/gen/secret_uses.py reads, for every Command::new / CommandBuilder::new of rip-tools
+   and ripd, the statements between the construction and the spawn - the cwd statement, the removal loop over secret_env_names()
+   and WHERE it sits (top level of the function, then- / else-block of the cwd statement, another condition), the call's own env,
+   the spawn.  The generated obligation: the sites are exactly the three the model has, and each one's step list, run by the
+   model's interpreter of step lists, is the model's site (so c19_every_spawn_path_strips speaks about the code's order of steps). *)
+Theorem c19_code_spawn_sites_as_modelled :
+  map fst gen_spawn_site_steps = modelled_spawn_sites
+  /\ Forall (fun s => forall (m : bool) (r : registry) (e : env) (q : spawn_req),
+                        run_steps (snd s) m r q (cmd_new e) = site_cmd true m r e q) gen_spawn_site_steps.
+Proof. exact gen_spawn_sites_as_modelled. Qed.
+Print Assumptions c19_code_spawn_sites_as_modelled.
+(* the step list the extractor reads off the seeded change C19-8 is the site that does not strip when `cwd` is given *)
+Theorem c19_cwd_else_strip_steps_are_the_unstripped_site : forall (m : bool) (r : registry) (e : env) (q : spawn_req),
+  run_steps [SCwd; SStripIfNoCwd; SOwnEnv; SSpawn] m r q (cmd_new e) = site_cmd false m r e q.
+Proof. exact cwd_else_strip_steps_run. Qed.
+Print Assumptions c19_cwd_else_strip_steps_are_the_unstripped_site.
+
 (* The SPAWN PATH as a function of its arguments.  spawn_cmd is the command one of the three spawn sites builds (rip-tools
    shell.rs run_command for the bash / shell tool; ripd tasks/pipes.rs and tasks/pty.rs for background tasks, execution_mode
    absent = pipes) from the environment `e` of the authority, the registry `r` as it is at that moment and the request `q`
